@@ -8,7 +8,9 @@
 // (Root = WorkspaceRoot = root), so that the real NewWorkspaceLocker() computes
 // <root>/<workspace prefix>/lockfile; all contenders of one schedule get the same root.
 // Then: READY <lock file path> <pid>; Lock(ctx) of the real (instrumented copy of the current)
-// WorkspaceLocker -- every file-system call blocks on the controller, see harness/go/hook;
+// WorkspaceLocker -- every call on the lock path (os.Link, os.ReadFile, os.Remove, processRunning) blocks
+// on the controller, see harness/go/hook and harness/rewrite; the private temporary file that
+// createLockFile writes the PID into is not gated (no model event);
 // HELD; waits for the token "unlock"; Unlock(); DONE ok|err; waits for "exit".
 // The context passed to Lock is cancellable and its cancel func is registered with the hook: the
 // token "cancel" (accepted while the locker waits for its timer) cancels it.  When Lock then returns
